@@ -607,6 +607,8 @@ class _Run:
             return _tree(self.status(lambda: mc.__delitem__(op[1])))
         if k == "copy":
             kw = {"without_meta": True} if op[3] else {}
+            if len(op) > 4 and op[4]:  # node object as source: same behaviour as the path form
+                return _tree(self.status(lambda: mc.copy(mc[op[1]], op[2], **kw)))
             return _tree(self.status(lambda: mc.copy(op[1], op[2], **kw)))
         if k == "move":
             return _tree(self.status(lambda: mc.move(op[1], op[2])))
@@ -697,12 +699,41 @@ class _Run:
         ops = case["ops"]
         obs_items = case.get("obs") or [[] for _ in ops]
         out = []
+        prev_att, prev_kind, prev_recs = {}, {"/": "g"}, (set(), set())
         for step, op in enumerate(ops):
             st = self.do_op(op, step)
             entries = self.raw_entries()
             objs, links = self.check_sync(entries, step)
+            # non-triviality tags (what the operation met in the state before it)
+            if op[0] in ("copy", "move", "del") and st == "ok":
+                src = op[1]
+                sub = [h for h in prev_att if h == src or src == "/" or h.startswith(src.rstrip("/") + "/")]
+                kind = prev_kind.get(src)
+                if sub:
+                    t = op[0] + ("-ds" if kind == "d" else "-group") + "-with-metadata"
+                    if op[0] == "copy" and op[3]:
+                        t += "-without_meta"
+                    if op[0] != "move" and kind == "g" and any(h != src for h in sub):
+                        t += "-nested"
+                    self.tags.add(t)
+                if op[0] == "copy" and op[2].startswith(src.rstrip("/") + "/"):
+                    self.tags.add("copy-into-own-subtree")
+            recs = (set(p for p, k, v in entries if p.startswith("/metador_container/schemas/") and p.count("/") == 3),
+                    set(p for p, k, v in entries if p.startswith("/metador_container/packages/")))
+            if prev_recs[0] - recs[0]:
+                self.tags.add("schema-record-removed")
+            if prev_recs[1] - recs[1]:
+                self.tags.add("package-record-removed")
+            if op[0] == "reopen" and objs:
+                self.tags.add("reopen-with-metadata")
+            if op[0] == "patch" and objs and self.case["driver"] == "ih5":
+                self.tags.add("patch-boundary-with-metadata")
+            prev_recs = recs
+            prev_kind = {p: k for p, k, v in entries}
+            prev_kind["/"] = "g"
             # one object per schema name per node (C07)
             att = self.attached(objs)
+            prev_att = att
             for host, l in att.items():
                 names = [self.ref_of(e)[0] for e, _, _ in l]
                 if len(names) != len(set(names)):
@@ -906,6 +937,16 @@ def gen_history(rng, n_ops, driver, insts, held=True, nq=5, nfinal=24, obs=None)
         name = rng.choice([n for n in ATTACHABLE if n not in have] or ATTACHABLE)
         return ["set", name, None, -1], None  # invalid instance -> ValidationError
 
+    def pick_src(nonroot):
+        withm = [p for p in nonroot if sh.meta.get(p)]
+        dsm = [p for p in withm if sh.kind[p] == "d"]
+        r = rng.random()
+        if dsm and r < 0.3:
+            return rng.choice(dsm)
+        if withm and r < 0.55:
+            return rng.choice(withm)
+        return rng.choice(nonroot)
+
     for _ in range(n_ops):
         while len(obs) < len(ops):
             obs.append(gen_obs(rng, sh, nq))
@@ -923,7 +964,8 @@ def gen_history(rng, n_ops, driver, insts, held=True, nq=5, nfinal=24, obs=None)
             if p not in sh.kind:
                 sh.add(p, "d")
         elif r < 0.50:
-            p = rng.choice(nodes) if rng.random() < 0.95 else sh.fresh_path(rng)
+            dss = sh.nodes("d")
+            p = (rng.choice(dss) if dss and rng.random() < 0.45 else rng.choice(nodes)) if rng.random() < 0.95 else sh.fresh_path(rng)
             sub, name = gen_set(p)
             ops.append(["mset", p] + sub[1:])
             if name and p in sh.meta:
@@ -974,7 +1016,12 @@ def gen_history(rng, n_ops, driver, insts, held=True, nq=5, nfinal=24, obs=None)
                     subs.append(["get", name, None])
             ops.append(["mseq", p, subs])
         elif r < 0.69:
-            if nonroot and rng.random() < 0.9:
+            q = rng.random()
+            if q < 0.03:
+                p = "/"  # destroys all metadata, then the raw delete of the root is refused
+                for x in sh.meta:
+                    sh.meta[x] = set()
+            elif nonroot and q < 0.9:
                 p = rng.choice(nonroot)
                 sh.remove(p)
             else:
@@ -983,7 +1030,7 @@ def gen_history(rng, n_ops, driver, insts, held=True, nq=5, nfinal=24, obs=None)
         elif r < 0.80:
             if not nonroot:
                 continue
-            src = rng.choice(nonroot) if rng.random() < 0.95 else sh.fresh_path(rng)
+            src = pick_src(nonroot) if rng.random() < 0.95 else sh.fresh_path(rng)
             q = rng.random()
             if q < 0.85:
                 dst = sh.fresh_path(rng)
@@ -992,7 +1039,7 @@ def gen_history(rng, n_ops, driver, insts, held=True, nq=5, nfinal=24, obs=None)
             else:
                 dst = src.rstrip("/") + "/" + rng.choice(NAMES)  # into own subtree (allowed for copy)
             wm = rng.random() < 0.35
-            ops.append(["copy", src, dst, wm])
+            ops.append(["copy", src, dst, wm, rng.random() < 0.2])
             if src in sh.kind and dst not in sh.kind and not (sh.kind[src] == "g" and dst.startswith(src + "/") and False):
                 par = dst.rsplit("/", 1)[0] or "/"
                 if sh.kind.get(par, "g") == "g":
@@ -1000,7 +1047,7 @@ def gen_history(rng, n_ops, driver, insts, held=True, nq=5, nfinal=24, obs=None)
         elif r < 0.89:
             if not nonroot:
                 continue
-            src = rng.choice(nonroot) if rng.random() < 0.95 else sh.fresh_path(rng)
+            src = pick_src(nonroot) if rng.random() < 0.95 else sh.fresh_path(rng)
             dst = sh.fresh_path(rng) if rng.random() < 0.9 else rng.choice(nonroot)
             if dst == src or dst.startswith(src + "/"):
                 continue  # never into own subtree (excluded by the property)
